@@ -1063,7 +1063,7 @@ func (fv *FV) callWriteComps(x *ast.CallExpr) ([]string, bool) {
 	if fn != nil && strings.Contains(fn.FullName(), "storage/mkvs.KeyValueTree).") || fn != nil && strings.Contains(fn.FullName(), "storage/mkvs.ImmutableKeyValueTree).") {
 		switch fn.Name() {
 		case "Insert", "Remove", "RemoveExisting":
-			return []string{regSort(kvDom, idxRef, arrSort(sInt, sBool)), regSort(kvVal, idxRef, arrSort(sInt, sInt)), regSort(kvWrites, idxRef, sInt)}, false
+			return []string{regSort(kvDom, idxRef, arrSort(sInt, sBool)), regSort(kvVal, idxRef, arrSort(sInt, sInt)), regSort(kvWrites, idxRef, sInt), regSort(treeWritesComp(), idxRef, arrSort(sRef, sInt))}, false
 		case "Get":
 			return nil, false
 		}
@@ -1094,7 +1094,7 @@ func (fv *FV) callWriteComps(x *ast.CallExpr) ([]string, bool) {
 		}
 		if call, ok := mx.(*ast.CallExpr); ok && len(call.Args) == 0 {
 			if id := identOf(ast.Unparen(call.Fun)); id != nil && id.Name == "gh_kvState" {
-				out = append(out, regSort(kvDom, idxRef, arrSort(sInt, sBool)), regSort(kvVal, idxRef, arrSort(sInt, sInt)), regSort(kvWrites, idxRef, sInt))
+				out = append(out, regSort(kvDom, idxRef, arrSort(sInt, sBool)), regSort(kvVal, idxRef, arrSort(sInt, sInt)), regSort(kvWrites, idxRef, sInt), regSort(treeWritesComp(), idxRef, arrSort(sRef, sInt)))
 				continue
 			}
 		}
